@@ -1,1 +1,11 @@
-fn main(){}
+//! C18 probe: this crate compiles if and only if the engine, context, value, error and kwargs
+//! types can be shared with and sent to other threads. Its failure to compile IS the verdict.
+fn assert<T: Send + Sync>() {}
+fn main() {
+    assert::<tera::Tera>();
+    assert::<tera::Context>();
+    assert::<tera::Value>();
+    assert::<tera::Error>();
+    assert::<tera::Kwargs>();
+    assert::<std::sync::Arc<tera::Tera>>();
+}
